@@ -963,6 +963,12 @@ func dedicated() []Case {
 		a, b := mkTCP(false, 101, 0x18, 100), mkTCP(false, 1, 0x10, 100)
 		out = append(out, g.assemble("regression/prepend-drops-psh", [][]*Pkt{{a, b}}, 16, true, 0))
 	}
+	// fixed (C16-fix-ns): the second of two adjacent segments carries the NS/AE flag (TCP byte 12 = 0x51)
+	{
+		a, b := mkTCP(false, 1, 0x10, 100), mkTCP(false, 101, 0x10, 100)
+		b.Rsvd = 1
+		out = append(out, g.assemble("regression/tcp-ns-flag-lost-in-merge", [][]*Pkt{{a, b}}, 16, true, 0))
+	}
 	// new: a zero-length UDP datagram is overtaken by a later datagram of its flow
 	{
 		mk := func(n int) *Pkt {
@@ -1529,9 +1535,7 @@ func main() {
 		cases = append(cases, twinCases()...)
 		cases = append(cases, badCsumCases()...)
 		cases = append(cases, deleteCases()...)
-		if !*noFindings {
-			cases = append(cases, nsFlagCases()...)
-		}
+		cases = append(cases, nsFlagCases()...)
 		cases = append(cases, fixedWriteSeq()...)
 		g := &gen{r: rand.New(rand.NewSource(*seed))}
 		for i := 0; i < *n; i++ {
